@@ -63,6 +63,10 @@ class ScaffoldNamer:
             fragment_tags = scaffold.fragment_tags()
 
         for tag in fragment_tags:
+            if not tag:
+                # An empty column in the AGP is not a tag. (Taking it for a
+                # haplotype made the result depend on set iteration order.)
+                continue
             if tag == "Painted":
                 is_painted = True
             elif tag == "Target":
